@@ -202,6 +202,28 @@ impl ProblemSpec {
     pub fn hash(&self) -> u64 {
         crate::rng::fnv(self.to_json().to_string().as_bytes())
     }
+    /// inverse of `to_json` for zoo models with finite data (used for committed witnesses)
+    pub fn from_json(v: &Value) -> Option<ProblemSpec> {
+        let m = &v["model"];
+        let model = if let Some(b) = m.get("built") {
+            ModelKind::Built(ModelSpec::from_json(b)?)
+        } else if let Some(b) = m.get("hand") {
+            ModelKind::Hand(ModelSpec::from_json(b)?)
+        } else {
+            return None;
+        };
+        let fl = |a: &Value| -> Option<Vec<f64>> { a.as_array()?.iter().map(|x| x.as_f64()).collect() };
+        let y = &v["y"];
+        Some(ProblemSpec {
+            model,
+            alpha0: fl(&v["alpha0"])?,
+            y: Mat::from_cols(y["rows"].as_u64()? as usize, y["cols"].as_u64()? as usize, fl(&y["data"])?),
+            w: if v["w"].is_null() { None } else { Some(fl(&v["w"])?) },
+            eps: v["eps"].as_f64(),
+            mrhs: v["mrhs"].as_bool()?,
+            par: v["par"].as_bool()?,
+        })
+    }
     pub fn s(&self) -> usize {
         self.y.c
     }
@@ -238,14 +260,25 @@ pub fn build_problem<T: Sc>(spec: &ProblemSpec, ctl: &Arc<SpyCtl>) -> Result<Any
 
 pub fn build_problem_with<T: Sc>(spec: &ProblemSpec, model: Spy<T>) -> Result<AnyProblem<T>, BuildErr> {
     let ymat: DMatrix<T> = dmat::<T>(&spec.y);
+    // the order of the builder calls must not matter (C18): every problem of the harness is built
+    // with a call order derived from its own content, so that all monitors see all orders
+    let perms: [[u8; 3]; 6] = [[0, 1, 2], [0, 2, 1], [1, 0, 2], [1, 2, 0], [2, 0, 1], [2, 1, 0]];
+    let order = perms[(crate::rng::hash_u64s([spec.y.d.len() as u64, spec.alpha0.iter().fold(0u64, |h, a| h ^ a.to_bits().rotate_left(7)), spec.y.d.iter().take(3).fold(0u64, |h, a| h ^ a.to_bits())]) % 6) as usize];
     macro_rules! finish {
-        ($b:expr, $variant:ident) => {{
+        ($b:expr, $variant:ident, $obs:expr) => {{
             let mut b = $b;
-            if let Some(w) = &spec.w {
-                b = b.weights(dvec::<T>(w));
-            }
-            if let Some(e) = spec.eps {
-                b = b.epsilon(T::of(e));
+            for step in order {
+                b = match step {
+                    0 => b.observations($obs),
+                    1 => match &spec.w {
+                        Some(w) => b.weights(dvec::<T>(w)),
+                        None => b,
+                    },
+                    _ => match spec.eps {
+                        Some(e) => b.epsilon(T::of(e)),
+                        None => b,
+                    },
+                };
             }
             b.build().map(AnyProblem::$variant).map_err(|e| format!("{e:?}"))
         }};
@@ -253,14 +286,14 @@ pub fn build_problem_with<T: Sc>(spec: &ProblemSpec, model: Spy<T>) -> Result<An
     match (spec.mrhs, spec.par) {
         (false, false) => {
             assert_eq!(spec.y.c, 1);
-            finish!(LevMarProblemBuilder::new(model).observations(dvec::<T>(spec.y.col(0))), SS)
+            finish!(LevMarProblemBuilder::new(model), SS, dvec::<T>(spec.y.col(0)))
         }
         (false, true) => {
             assert_eq!(spec.y.c, 1);
-            finish!(LevMarProblemBuilder::new_parallel(model).observations(dvec::<T>(spec.y.col(0))), SP)
+            finish!(LevMarProblemBuilder::new_parallel(model), SP, dvec::<T>(spec.y.col(0)))
         }
-        (true, false) => finish!(LevMarProblemBuilder::mrhs(model).observations(ymat), MS),
-        (true, true) => finish!(LevMarProblemBuilder::mrhs_parallel(model).observations(ymat), MP),
+        (true, false) => finish!(LevMarProblemBuilder::mrhs(model), MS, ymat.clone()),
+        (true, true) => finish!(LevMarProblemBuilder::mrhs_parallel(model), MP, ymat.clone()),
     }
 }
 
